@@ -690,6 +690,20 @@ example : ((w 40).srcs 1).isDeclared 1 = false ∧ ((w 40).srcs 0).isDeclared 3 
 example : 3 ≤ ((w 40).srcs 0).nextEid ∧ ((w 40).srcs 0).subscribers 0 = [eD, eA] := by decide
 example : ((w 0).srcs 1).inited = false ∧ ((w 40).srcs 1).inited = true := by decide
 
+/-- forwarding: handler A of source 0 raises the very event it is handling on source 1 (`fwd`); E there sets `event.halt`,
+    F answers a plain value, so the forwarded delivery stops after F — and because it is the same event object, the outer
+    delivery on source 0 sees the flag too: it stops after its next handler that answers something (B answers a tuple) -/
+def fβ : Beh := fun hid _ =>
+  if hid = 1 then ⟨none, [(⟨1, .raise 0 .fwd false⟩, false)], .none⟩
+  else if hid = 2 then ⟨none, [], .tup2 false false⟩
+  else if hid = 5 then ⟨some true, [], .none⟩
+  else if hid = 6 then ⟨none, [], .other⟩ else ⟨none, [], .none⟩
+def fops : List SAct := [⟨0, .add 0 1 0 false none⟩, ⟨0, .add 0 2 0 false none⟩, ⟨0, .add 0 3 0 false none⟩,
+  ⟨1, .add 0 5 0 false none⟩, ⟨1, .add 0 6 0 false none⟩, ⟨1, .add 0 7 0 false none⟩, ⟨0, .raise 0 .inst false⟩]
+def ff (n : Nat) : M := run fβ n (M.init Variant.current (fresh wcfg) fops)
+example : (callsOf 1 (ff 60).log).map (·.hid) = [5, 6] ∧ (callsOf 0 (ff 60).log).map (·.hid) = [1, 2] ∧
+    (ff 60).halts 0 = true ∧ (ff 60).evOf 1 = some (0, 0) ∧ (ff 60).stack = [] ∧ (ff 60).todo = [] := by decide
+
 /-! ## Regression witness for the one-shot repair (uses the running example above) -/
 
 /-- **once_inflight_witness** (a tree without 195cf63; finding C05-1, fixed).  B is one-shot.  The nested delivery 2 runs
